@@ -1,4 +1,4 @@
-"""./check <Cxx> quick|thorough | setup | replay <file> | all [tier] | selftest [seed ids | pinned]
+"""./check <Cxx> quick|thorough | setup | replay <file> | all [tier] | selftest [seed ids | pinned] | harmless [ids] [Cxx ...]
 
 Decision procedure (DESIGN.md section 4):
   1 regenerate Extracted.lean from /repo, build driver + the property's theorem module
@@ -289,6 +289,56 @@ def selftest(ids):
     return 1 if bad else 0
 
 
+def harmless(ids):
+    """False-alarm regression: every /verif/harmless/<id>/patch.diff is a behaviour-preserving rewrite of /repo (the
+    properties still hold).  Each is applied to a scratch worktree and EVERY check must still exit 0 on it."""
+    import shutil
+    import subprocess
+    import tempfile
+    hdir = os.path.join(VERIF, 'harmless')
+    args = [a for a in ids if a not in PROPS]
+    only = [a for a in ids if a in PROPS]
+    ids = args or sorted(d for d in os.listdir(hdir) if os.path.exists(os.path.join(hdir, d, 'patch.diff')))
+    alarms = []
+    for hid in ids:
+        wt = tempfile.mkdtemp(prefix='hpfeeds_harmless_', dir='/var/tmp')
+        out = tempfile.mkdtemp(prefix='hpfeeds_harmless_out_', dir='/var/tmp')
+        os.rmdir(wt)
+        try:
+            r = subprocess.run(['git', '-C', '/repo', 'worktree', 'add', '--detach', '-q', wt, 'HEAD'], capture_output=True, text=True)
+            if r.returncode != 0:
+                print(hid, 'worktree failed:', r.stderr[-300:])
+                alarms.append(hid)
+                continue
+            r = subprocess.run(['git', 'apply', os.path.join(hdir, hid, 'patch.diff')], cwd=wt, capture_output=True, text=True)
+            if r.returncode != 0:
+                print(hid, 'patch does not apply to /repo HEAD:', r.stderr[-300:])
+                alarms.append(hid)
+                continue
+            env = dict(os.environ, VERIF_REPO_ROOT=wt, VERIF_OUT=out)
+            for p in only or sorted(PROPS):
+                r = subprocess.run([sys.executable, os.path.abspath(__file__), p, 'quick'], env=env, capture_output=True, text=True, timeout=3000)
+                if r.returncode != 0:
+                    vio = [l for l in r.stdout.splitlines() if l.startswith('VIOLATION')]
+                    what = ''
+                    try:
+                        rp = vio[0].split('replay=')[1].split()[0]
+                        d = json.load(open(rp if os.path.isabs(rp) else os.path.join(out, rp)))
+                        what = str(d.get('what'))[:600]
+                    except Exception:
+                        pass
+                    print('%-6s %s exit=%d FALSE ALARM %s\n       %s' % (hid, p, r.returncode, (vio or r.stdout.splitlines()[-1:] or [''])[0], what), flush=True)
+                    alarms.append('%s/%s' % (hid, p))
+            print('%-6s done' % hid, flush=True)
+        finally:
+            subprocess.run(['git', '-C', '/repo', 'worktree', 'remove', '--force', wt], capture_output=True)
+            shutil.rmtree(wt, ignore_errors=True)
+            shutil.rmtree(out, ignore_errors=True)
+    extract.extract()
+    print('harmless: %d rewrites evaluated, alarms: %s' % (len(ids), alarms or 'none'))
+    return 1 if alarms else 0
+
+
 def main(argv):
     if not argv:
         print(__doc__)
@@ -297,6 +347,8 @@ def main(argv):
         return setup()
     if argv[0] == 'selftest':
         return selftest(argv[1:])
+    if argv[0] == 'harmless':
+        return harmless(argv[1:])
     if argv[0] == 'replay':
         return replay(argv[1])
     seed = int(os.environ.get('VERIF_SEED', '0') or 0)
